@@ -43,7 +43,8 @@ def rule_run_protocol(ctx):
     protocol.writer_table(ctx, "O20.run", {"reset"}, "delimited")
     protocol.writer_table(ctx, "O20.run", {"reset"}, "fixed")
     # every operation on a shared CID (incl. readers that never start, readers created up front) resets before use
-    protocol.history_table(ctx, "O20.run", 2)
+    # (C20 is stated for repeated runs one after the other; overlapping lifetimes are C08's business)
+    protocol.history_table(ctx, "O20.run", 2, overlapping=False)
 
 
 DOCUMENTED_FIELD_TYPES = ["Choice", "Constant", "DateTime", "Decimal", "Integer", "Pattern", "RegEx", "Text"]
